@@ -218,6 +218,12 @@ def gen_slot_cases(run, desc):
                 for v in ks:
                     cases.append(mk(subst=[[pth, v]]))
             # extension entries of every kind under a fresh key and under a registered extension name
+            if "extensions" not in slot_names:
+                # no `extensions` property: the pre-clean scan still reads the value
+                for ek in ("foo-ext", "extension-definition--" + UUID4B):
+                    for et in ("toplevel-property-extension", "property-extension", 5):
+                        for ac in (False, True):
+                            cases.append(mk(subst=[[["extensions"], {ek: {"extension_type": et}}], [["x_toplevel"], 1]], allow_custom=ac))
             if "extensions" in slot_names:
                 edk = "extension-definition--" + UUID4B
                 for ek in (edk, "foo-ext", "ntfs-ext", "x-bar-ext"):
@@ -293,6 +299,7 @@ def gen_raw_cases(run):
                 if ver is not None and rng.random() < 0.5 and run.tier != "thorough":
                     continue
                 cases.append({"op": "parse", "data": v, "allow_custom": ac, "version": ver})
+                cases.append({"op": "dict_to_stix2", "data": v, "allow_custom": ac, "version": ver})
                 if not isinstance(v, str):
                     cases.append({"op": "parse_text", "data": v, "allow_custom": ac, "version": ver})
                     cases.append({"op": "parse_file", "data": v, "allow_custom": ac, "version": ver,
@@ -439,6 +446,8 @@ def gen_deep_cases(run):
                     "allow_custom": True})
         out.append({"op": "deep", "deep": {"shape": "dict", "depth": depth, "within": {"id": "x"}, "at": ["v"]}})
         out.append({"op": "deep", "deep": {"shape": "bundle", "depth": depth}})
+        out.append({"op": "deep", "via": "dict_to_stix2", "deep": {"shape": "bundle", "depth": depth}})
+        out.append({"op": "deep", "via": "dict_to_stix2", "deep": {"shape": "dict", "depth": depth, "within": {"id": "x"}, "at": ["v"]}})
         out.append({"op": "deep", "via": "parse_observable", "version": "2.0",
                     "deep": {"shape": "dict", "depth": depth, "within": {"type": "file", "name": "x"}, "at": ["extensions"]}})
     return out
@@ -553,6 +562,8 @@ def model_term(case, desc, I):
         if isinstance(data, str):
             return "PT %s %s %s" % (text_result(data, I), ac, ver)
         return "PV %s %s %s %s" % (dec_term(data, I), value_term(case, I), ac, ver)
+    if op == "dict_to_stix2":
+        return "PD %s %s %s" % (value_term(case, I), ac, ver)
     if op in ("parse_text", "parse_file"):
         tr = text_result(data, I) if isinstance(data, str) else "(TDecoded %s)" % value_term(case, I)
         return "%s %s %s %s" % ("PT" if op == "parse_text" else "PF", tr, ac, ver)
@@ -566,27 +577,29 @@ def model_term(case, desc, I):
         return "PO %s %s %s %s %s" % (dec_term(data, I), value_term(case, I), vr, ac, ver)
     if op == "store_add":
         if isinstance(data, list):
-            return "show_store_outcomes (store_add_list VAR REG clean_any RF nodec [] %s %s)" % (
+            return "show_store_outcomes (store_add_list VAR REG clean_any SX RF nodec [] %s %s)" % (
                 common.coq_list([I.j(x) for x in data]), ver)
-        return "show_store_outcomes (store_add_one VAR REG clean_any RF %s [] %s %s)" % (dec_term(data, I), value_term(case, I), ver)
+        return "show_store_outcomes (store_add_one VAR REG clean_any SX RF %s [] %s %s)" % (dec_term(data, I), value_term(case, I), ver)
     return None
 
 
 HELPERS = """Definition nodec : decoder := dec_table [].
 Definition tkey : ustring := u "t".
-Definition PV dec x ac io ver := show_MP (parse VAR REG clean_any RF dec x ac io ver).
-Definition PT tr ac io ver := show_MP (parse VAR REG clean_any RF (fun _ => tr) (JStr tkey) ac io ver).
-Definition PF tr ac io ver := show_MP (parse_file VAR REG clean_any RF nodec tr ac io ver).
-Definition PC dec c ac io x := show_MU (call_check (kw_of x) false ;;; construct VAR REG clean_any dec c ac io (kw_of x)).
-Definition PO dec x vr ac io ver := show_MP (parse_observable VAR REG clean_any RF dec x vr ac io ver).
-Definition POT tr vr ac io ver := show_MP (parse_observable VAR REG clean_any RF (fun _ => tr) (JStr tkey) vr ac io ver).
+Definition PV dec x ac io ver := show_MP (parse VAR REG clean_any SX RF dec x ac io ver).
+Definition PT tr ac io ver := show_MP (parse VAR REG clean_any SX RF (fun _ => tr) (JStr tkey) ac io ver).
+Definition PD x ac io ver := show_MP (dict_to_stix2 VAR REG clean_any SX RF nodec x false ac io ver).
+Definition PF tr ac io ver := show_MP (parse_file VAR REG clean_any SX RF nodec tr ac io ver).
+Definition PC dec c ac io x := show_MU (call_check (kw_of x) false ;;; construct VAR REG clean_any SX dec c ac io (kw_of x)).
+Definition PO dec x vr ac io ver := show_MP (parse_observable VAR REG clean_any SX RF dec x vr ac io ver).
+Definition POT tr vr ac io ver := show_MP (parse_observable VAR REG clean_any SX RF (fun _ => tr) (JStr tkey) vr ac io ver).
 """
 
 
 def eval_model(tag, cases, desc, unguarded, shard=400, timeout=900, refuse=False, registry="live"):
     """evaluate the model on the cases (None for cases without a model term); per-shard headers carry the base objects"""
-    var = "Definition VAR : variant := unguarded_at (sites_named %s).\nDefinition RF : bool := %s.\nDefinition REG : registry := %s.\n" % (
-        common.coq_list([common.coq_str(t) for t in unguarded]), common.coq_bool(refuse), registry)
+    var = "Definition VAR : variant := unguarded_at (sites_named %s).\nDefinition RF : bool := %s.\nDefinition REG : registry := %s.\nDefinition SX : bool := %s.\n" % (
+        common.coq_list([common.coq_str(t) for t in unguarded]), common.coq_bool(refuse), registry,
+        common.coq_bool(MODE["strict_unregistered_extension"]))
     cases_dir = os.path.join(common.COQ, "Cases")
     os.makedirs(cases_dir, exist_ok=True)
     jobs = []
@@ -679,7 +692,7 @@ def parse_store_set(line):
 
 def impl_label(case, r):
     if r["out"] == "Ok":
-        if case["op"] in ("parse", "parse_text", "parse_file", "parse_observable", "deep"):
+        if case["op"] in ("parse", "parse_text", "parse_file", "parse_observable", "deep", "dict_to_stix2"):
             return "Ok:" + ("obj" if r.get("ret") == "obj" else "dict")
         return "Ok"
     return r.get("cls")
@@ -715,7 +728,7 @@ SITE_FNS = {
     "json-text-nesting-depth": {"utils._get_dict"},
 }
 
-MODE = {"refuse_custom": False}
+MODE = {"refuse_custom": False, "strict_unregistered_extension": False}
 SIGNATURES = {}     # (class, function, source line, normalised message) of each witness's escape -> finding id
 
 
@@ -735,7 +748,14 @@ def classify(case, r, mset):
             return "C17-" + sites[0]
         if r.get("fn") == "utils._get_dict":          # json.load on a file-like object: same site, not a model op
             return "C17-json-text-nesting-depth"
-        fn = (r.get("fn") or "interpreter").replace(".", "-").replace("_", "-").strip("-").lower()
+        fn = r.get("fn") or "interpreter"
+        if case.get("via") == "dict_to_stix2":
+            # the secondary entry point stix2.parsing.dict_to_stix2 called directly (parse() guards its own call)
+            if "detect_spec_version" in fn:
+                return "C17-recursion-direct-dict-to-stix2-nested-bundles"
+            if fn == "parsing.dict_to_stix2":
+                return "C17-recursion-direct-dict-to-stix2-no-type-message"
+        fn = fn.replace(".", "-").replace("_", "-").replace("<", "").replace(">", "").strip("-").lower()
         return "C17-recursion-" + re.sub("-+", "-", fn)
     sites = sorted(s for n, s in (mset or ()) if n == cls and s and s != "lib")
     # (DataStoreMixin.add catches an AttributeError of the sink and raises a new one itself)
@@ -785,7 +805,14 @@ def run_witnesses():
     ws = witnesses()
     tags = list(ws)
     probe = {"op": "parse", "allow_custom": False, "data": identity21(custom_properties={"x_a": 1})}
-    res = common.run_impl("c17_impl", [ws[t] for t in tags] + [probe], procs=2)
+    # base.py (fix 2c41d60): an unregistered toplevel-property-extension vouches for extra properties only on a class
+    # that has an `extensions` property -- probed on a 2.0 identity
+    probe2 = {"op": "parse", "allow_custom": False, "data": {
+        "type": "identity", "id": "identity--" + UUID4, "created": TS, "modified": TS, "name": "n", "identity_class": "individual",
+        "extensions": {"foo-ext": {"extension_type": "toplevel-property-extension"}}}}
+    res = common.run_impl("c17_impl", [ws[t] for t in tags] + [probe, probe2], procs=2)
+    pr2 = res.pop()
+    MODE["strict_unregistered_extension"] = pr2["out"] == "Raise" and pr2.get("cls") == "ExtraPropertiesError"
     pr = res.pop()
     # parsing._refuse_unrequested_custom (present from fix c6e00f7 on): a mode of the model, not a defect site
     MODE["refuse_custom"] = pr["out"] == "Raise" and pr.get("cls") == "CustomContentError"
@@ -837,7 +864,8 @@ def check(run):
 
     unguarded, wres = run_witnesses()
     run.coverage["variant"] = {"unguarded_sites": unguarded, "guarded_sites": [t for t in SITE_TAGS if t not in unguarded],
-                               "refuse_unrequested_custom": MODE["refuse_custom"]}
+                               "refuse_unrequested_custom": MODE["refuse_custom"],
+                               "strict_unregistered_extension": MODE["strict_unregistered_extension"]}
 
     cases = gen_slot_cases(run, desc) + gen_raw_cases(run) + gen_marking_cases(run, desc) + gen_store_cases(run, desc)
     ws = witnesses()
